@@ -9,4 +9,4 @@ Extraction "model.ml"
   FreeSpace.freespace_rows FreeSpace.compute_rows_circuit
   Hpwl.pin_x_offset Hpwl.pin_y_offset Hpwl.placed_width Hpwl.placed_height Hpwl.def_transform Hpwl.hpwl
   Hpwl.circuit_topology Hpwl.incr_trace Hpwl.cell_net_ids
-  Circuit.legalb Circuit.orient_okb Circuit.trivially_feasible Circuit.free_rows Legalizer.legalize_circuit Legalizer.circuit_after.
+  Orient.cell_orientation_in_row Orient.opposite_row_orientation Orient.is_turn Circuit.prescribed Circuit.legalb Circuit.orient_okb Circuit.trivially_feasible Circuit.free_rows Legalizer.legalize_circuit Legalizer.circuit_after.
